@@ -41,7 +41,7 @@ fn gen_expr(r: &mut Rng, depth: usize, max_depth: usize) -> SX {
             3 => call("input", vec![a("real"), a(*r.pick(&["a", "b", "c", "d"]))]),
             4 => call("input-history", vec![a("real"), a(*r.pick(&["a", "b", "c", "d", "e", "s"])), num(r.range(1, 8))]),
             5 => call("input", vec![a("virtual"), a("vk1")]),
-            6 => call("layer", vec![a(*r.pick(&["l0", "l1"]))]),
+            6 => call("layer", vec![a(*r.pick(&["l0", "l1", "l2"]))]),
             _ => call("base-layer", vec![a(*r.pick(&["l0", "l1"]))]),
         };
     }
@@ -199,10 +199,11 @@ impl Prop for C10 {
         // *input* while held although it holds no key)
         let c_act = *r.pick(&["z", "z", "mlft", "(push-msg hi)", "mrgt"]);
         case.cfg = format!(
-            "(defcfg delegate-to-first-layer yes)\n(defsrc a b c d e f s g)\n(defvirtualkeys vk1 1 vk2 XX)\n(deflayer l0 x y {c_act} (layer-while-held l1) (layer-switch l1) (layer-switch l0) {swt} (fork f7 f8 ({fork_trig})))\n(deflayer l1 _ _ _ _ _ _ _ _)\n"
+            "(defcfg delegate-to-first-layer yes)\n(defsrc a b c d e f s g h)\n(defvirtualkeys vk1 1 vk2 XX)\n(deflayer l0 x y {c_act} (layer-while-held l1) (layer-switch l1) (layer-switch l0) {swt} (fork f7 f8 ({fork_trig})) (layer-while-held l2))\n(deflayer l1 _ _ _ _ _ _ _ _ _)\n(deflayer l2 _ _ _ _ _ _ _ _ _)\n"
         );
         // history
-        let ctx: Vec<u16> = ["a", "b", "c", "d", "e", "f"].iter().map(|k| oscode_of(k)).collect();
+        // (d and h hold layers l1 and l2: with both down the layer activated last is the active one)
+        let ctx: Vec<u16> = ["a", "b", "c", "d", "e", "f", "h", "h"].iter().map(|k| oscode_of(k)).collect();
         let (s, g) = (oscode_of("s"), oscode_of("g"));
         let mut ops = vec![];
         let mut down: Vec<u16> = vec![];
@@ -282,14 +283,15 @@ impl Prop for C10 {
         let swv = sw.list().unwrap_or(&[]).to_vec();
         let fork_trig = fork.list().and_then(|v| v.get(3)).and_then(|t| t.list()).and_then(|t| t.first()).and_then(|t| t.atom()).unwrap_or("x").to_string();
         // walk the history, maintaining the reference state
-        let names = ["a", "b", "c", "d", "e", "f", "s", "g"];
+        let names = ["a", "b", "c", "d", "e", "f", "s", "g", "h"];
         let name_of = |c: u16| names.iter().find(|n| oscode_of(n) == c).copied().unwrap_or("?");
         let marker_names: Vec<String> = MARKERS.iter().map(|m| up(m)).chain([up("f7"), up("f8")]).collect();
         let mut tm = 0u64;
         let mut inputs_down: Vec<String> = vec![];
         let mut input_hist: Vec<String> = vec![];
         let mut vk_down = false;
-        let mut d_down = false;
+        // held layers in the order in which their keys went down
+        let mut held_layers: Vec<&str> = vec![];
         let mut base = "l0".to_string();
         let mut sig = fnv(0, swv.iter().map(|x| x.to_text()).collect::<Vec<_>>().join(" ").as_bytes());
         let mut evaluated = 0;
@@ -309,9 +311,9 @@ impl Prop for C10 {
                     input_hist.insert(0, n.to_string());
                     match n {
                         "a" | "b" | "c" => inputs_down.push(n.to_string()),
-                        "d" => {
-                            d_down = true;
-                            inputs_down.push("d".into());
+                        "d" | "h" => {
+                            held_layers.push(if n == "d" { "l1" } else { "l2" });
+                            inputs_down.push(n.to_string());
                         }
                         "e" => base = "l1".into(),
                         "f" => base = "l0".into(),
@@ -332,7 +334,7 @@ impl Prop for C10 {
                                 inputs_down: inputs_down.clone(),
                                 input_hist: input_hist.clone(),
                                 vk_down,
-                                layer: if d_down { "l1".into() } else { base.clone() },
+                                layer: held_layers.last().map(|l| l.to_string()).unwrap_or_else(|| base.clone()),
                                 base_layer: base.clone(),
                                 boundary: false,
                             };
@@ -397,8 +399,9 @@ impl Prop for C10 {
                 Op::Release(c) => {
                     let n = name_of(*c);
                     inputs_down.retain(|x| x != n);
-                    if n == "d" {
-                        d_down = false;
+                    if n == "d" || n == "h" {
+                        let l = if n == "d" { "l1" } else { "l2" };
+                        held_layers.retain(|x| *x != l);
                     }
                 }
                 _ => {}
